@@ -392,6 +392,9 @@ def copypath(source: str, dest: str) -> None:
             if not os.path.exists(path):
                 os.mkdir(path)
             root = path
+    # never write through a link that sits in the file's place: replace it
+    if os.path.islink(dest):
+        os.remove(dest)
     shutil.copy(source, dest)
 
 
